@@ -96,9 +96,10 @@ func (t *TableSpec) largest() KeySpec {
 	return *t.PointLa
 }
 
-// hasCustomFields mirrors the documented condition under which a new-table
-// record carries the custom-field section.
-func (t *TableSpec) classNoCustomRangeKey() bool {
+// rangeKeysOnlyCustom: the table has range keys (tagNewFile5) and none of the
+// fields that used to trigger the custom-field section (regression class of
+// the repaired finding newfile5-without-custom-fields-has-no-terminator).
+func (t *TableSpec) rangeKeysOnlyCustom() bool {
 	return t.HasRange && t.CreationTime == 0 && !t.Virtual && len(t.Refs) == 0 && !t.NoRangeSets
 }
 
